@@ -186,6 +186,13 @@ class Program:
             self.step(step)
         return self.trace
 
+    def maybe_bad(self, cols, op):
+        """Now and then a call that fails half-way (a column name that does not exist, after valid ones): a failed call changes nothing either."""
+        if self.rng.random() < 0.12:
+            self.mon.count("failing-call-injected:" + op)
+            return list(cols) + ["no_such_column_"]
+        return cols
+
     def pick_cols(self, df, kmin=1, kmax=3):
         names = list(dict.keys(df))
         if not names or kmin > len(names):
@@ -202,7 +209,7 @@ class Program:
                "setitem", "setattr", "setitem_scalar", "setitem_wrong_length", "delitem", "delattr", "pop", "popitem", "colnames",
                "copy", "deepcopy", "clear", "aggregate", "count", "lod_roundtrip", "json_roundtrip", "pandas_roundtrip",
                "arrow_roundtrip", "new_kwargs", "new_from_columns", "group_by", "split", "compare_eq", "to_string", "file_roundtrip",
-               "new_mixed_lengths", "grouped_lengths_modify"]
+               "new_mixed_lengths", "grouped_lengths_modify", "export_probe"]
         op = rng.choice(ops)
         nrow = canon.frame_nrow(df)
         names = list(dict.keys(df))
@@ -241,9 +248,11 @@ class Program:
                 call = lambda: getattr(df, op)(n) if n is not None else getattr(df, op)()
             elif op == "drop_na":
                 cols = self.pick_cols(df, 0) or []
+                cols = self.maybe_bad(cols, op)
                 call = lambda: df.drop_na(*cols)
             elif op == "unique":
                 cols = self.pick_cols(df, 0) or []
+                cols = self.maybe_bad(cols, op)
                 call = lambda: df.unique(*cols)
             elif op == "sort":
                 cols = self.pick_cols(df)
@@ -251,7 +260,7 @@ class Program:
                 cols = [c for c in cols if canon.dtype_kind(dict.__getitem__(df, c)) != "object" or
                         all(isinstance(x, (bool, type(None))) for x in np.asarray(dict.__getitem__(df, c)).tolist())]
                 if not cols: return
-                kw = {c: rng.choice([1, -1]) for c in cols}
+                kw = {c: rng.choice([1, -1]) for c in self.maybe_bad(cols, op)}
                 call = lambda: df.sort(**kw)
             elif op.endswith("_join"):
                 other = rng.choice(self.pool)
@@ -449,6 +458,39 @@ class Program:
                 self.trace.append(f"{i}:new_mixed_lengths:{tag}")
                 self.ok_ops[op] = self.ok_ops.get(op, 0) + 1
                 return
+            elif op == "export_probe":
+                # a converted object (pyarrow.Table, pandas.DataFrame) is new data as well: a later in-place edit of the frame is not visible in it
+                if not names or nrow == 0 or not self.mon.nomut: return
+                target = rng.choice(["arrow", "pandas"])
+                if target == "arrow" and any(canon.dtype_kind(v) in ("object", "bytes", "timedelta", "other") for v in dict.values(df)): return
+                try:
+                    ext = df.to_arrow() if target == "arrow" else df.to_pandas()
+                except Exception as e:
+                    self.mon.count(f"op_raised:export_probe:{exc_name(e)}")
+                    return
+                view = (lambda: repr(ext.to_pydict())) if target == "arrow" else (lambda: repr(ext.to_dict("list")))
+                before = view()
+                saved = []
+                for cn, cv in dict.items(df):
+                    ra = np.asarray(cv)
+                    if ra.shape[0] and ra.flags.writeable:
+                        nv = different_value(ra)
+                        if nv is not None:
+                            try:
+                                old = ra[0].copy() if hasattr(ra[0], "copy") else ra[0]
+                                ra[0] = nv
+                                saved.append((ra, old))
+                            except Exception:
+                                pass
+                after = view()
+                for ra, old in saved:
+                    ra[0] = old
+                if before != after:
+                    self.mon.violate("C06", f"to_{target}:write-to-receiver-visible-in-result", f"to_{target}(): overwriting element 0 of the frame's columns changed the converted object: {before[:300]} -> {after[:300]}")
+                self.mon.count("export-probes", 1 if saved else 0)
+                self.trace.append(f"{i}:export_probe:{target}")
+                self.ok_ops[op] = self.ok_ops.get(op, 0) + 1
+                return
             elif op == "grouped_lengths_modify":
                 # group-wise modify: a function's result is broadcast within its group when it is of length one and rejected when of any other wrong length
                 cols = [c for c in names if canon.dtype_kind(dict.__getitem__(df, c)) in ("int", "bool", "string", "date")]
@@ -533,6 +575,7 @@ class Program:
                 cols = [c for c in cols if canon.dtype_kind(dict.__getitem__(df, c)) not in ("object", "bytes")]
                 if not cols: return
                 if op == "count":
+                    cols = self.maybe_bad(cols, op) if rng.random() < 0.8 else []
                     call = lambda: df.count(*cols)
                 else:
                     di.USE_NUMBA = False
@@ -548,6 +591,17 @@ class Program:
                         return 1
                     call = lambda: df.copy().group_by(*cols).aggregate(n=di.count(), m=lambda d: d.nrow, ok=coherent)
                     post = ("group-frames-coherent", None, None)
+                    gc = tuple(getattr(df, "_group_colnames", ()) or ())
+                    if gc and all(c in names for c in gc) and rng.random() < 0.4:
+                        # the receiver is itself grouped and a summary function fails at its second group: nothing may have changed
+                        calls = []
+                        def boom(d):
+                            calls.append(1)
+                            if len(calls) >= 2: raise ZeroDivisionError("summary failed half-way")
+                            return d.nrow
+                        call = lambda: df.aggregate(n=di.count(), m=boom, k=lambda d: d.nrow)
+                        post = None
+                        self.mon.count("failing-call-injected:aggregate")
             elif op == "lod_roundtrip":
                 if nrow == 0: return
                 call = lambda: df.to_list_of_dicts().to_data_frame()
